@@ -224,6 +224,13 @@ def shapes(tier):
     out.append(("C18 enumerated ext", "M-x DEFINITIONS AUTOMATIC TAGS ::= BEGIN E-e ::= ENUMERATED { one, ..., two-three, four } END", {'module': 'M-x', 'defs': [('E-e', e)]}))
     out.append(("C18 import", "M-x DEFINITIONS AUTOMATIC TAGS ::= BEGIN IMPORTS T-b FROM M-b; A ::= SEQUENCE { x T-b } END\nM-b DEFINITIONS AUTOMATIC TAGS ::= BEGIN T-b ::= NULL END",
                 {'module': 'M-x', 'defs': [('A', Ty('seq', members=[Mem('x', R('T-b'))]))]}))
+    # imported type references of every lexical style (X.680 12.2: capitals, digits and hyphens are all allowed), used as
+    # member, element, alternative and alias; several symbols from one module, two exporting modules
+    for nm in ['T-b', 'T1', 'SHA1', 'X509-V3', 'AB', 'KEY-ID', 'Ab-1c']:
+        for use, t in (('member', Ty('seq', members=[Mem('x', R(nm))])), ('element', Ty('seqof', elem=R(nm))), ('alternative', Ty('choice', members=[Mem('x', R(nm)), Mem('y', P('NULL'))])), ('alias', R(nm))):
+            text = (f"M-x DEFINITIONS AUTOMATIC TAGS ::= BEGIN IMPORTS Other, {nm} FROM M-b Third FROM M-c; A ::= {t.text()} B ::= SEQUENCE {{ o Other, t Third }} END\n"
+                    f"M-b DEFINITIONS AUTOMATIC TAGS ::= BEGIN {nm} ::= NULL Other ::= BOOLEAN END\nM-c DEFINITIONS AUTOMATIC TAGS ::= BEGIN Third ::= BOOLEAN END")
+            out.append((f"C18 import of {nm} as {use}", text, {'module': 'M-x', 'defs': [('A', t), ('B', Ty('seq', members=[Mem('o', R('Other')), Mem('t', R('Third'))]))]}))
     return out
 
 
